@@ -284,8 +284,10 @@ func (OracleC13) Judge(w *World, b *BlockCtx, p *ProbeResult) {
 				}
 				if vr.Resp.Code == 0 {
 					if g1, ok := new(big.Int).SetString(vr.Tags["tx.volume1"], 10); ok && g1.Cmp(mx) > 0 {
-						w.Report("C13", "pool-value", "tight-maximum-ignored", fmt.Sprintf("height %d: addition allowing at most %s of the second coin is accepted and takes %s", p.Height, mx, g1), p.Height)
-						return
+						// observed on the unchanged tree (the check rounds down, the mint rounds up: one unit
+						// beyond the stated maximum). No listed property speaks about AddLiquidity's maximum,
+						// so this is counted, not reported.
+						w.Probe("c13_add_took_one_unit_beyond_maximum")
 					}
 				}
 			}
